@@ -64,6 +64,13 @@ def pairCorr (g : Globals) (run : PairRun) (obs : List SExp) : Verdict :=
   (expectOutcome "StringDown" run.down (o "down")).and <|
   (expectOutcome "StringUp-2nd" run.up2 (o "up2"))
 
+/-- the same pair under the other keyword-case option (C10) -/
+def pairCaseCorr (g : Globals) (old new : List Stmt) (obs : List SExp) : Verdict :=
+  let o := fun k => (obsStr obs k).getD "<missing>"
+  let run := runPairModel { g with lower := !g.lower } old new
+  (expectOutcome "StringUp-other-case" run.up (o "upCase")).and <|
+  (expectOutcome "StringDown-other-case" run.down (o "downCase"))
+
 /-- sqlite prints `DROP INDEX name;` without a table: resolve it against the schema it runs on -/
 def resolveDropIndex (db : DB) : List Stmt → List Stmt
   | [] => []
@@ -108,7 +115,13 @@ def pairProps (g : Globals) (old new : List Stmt) (obs : List SExp) : Verdict :=
     (judge "C01" (ordering r01 (Scope.c01 g dbOld dbNew old new)) (r01 true)).and <|
     (judge "C02" (ordering r02 (Scope.c02 g dbOld dbNew old new)) (r02 true)).and <|
     (judge "C03" (Scope.c03 g dbOld dbNew old new) r03).and <|
-    (judge "C13" (ordering r13 (Scope.c13 g dbOld dbNew old new)) (r13 true))
+    let r10 : Check := do
+      let skip := isPanic (o "up") || isPanic (o "upCase") || isPanic (o "down") || isPanic (o "downCase")
+      if skip then pure () else do
+        c10CaseOnly (o "up") (o "upCase")
+        c10CaseOnly (o "down") (o "downCase")
+    (judge "C13" (ordering r13 (Scope.c13 g dbOld dbNew old new)) (r13 true)).and <|
+    (judge "C10" none r10)
   | _, _ => { items := ["illformed-input"] }
 
 def pairHandler : Handler
@@ -117,7 +130,7 @@ def pairHandler : Handler
     let o ← decodeStmts old
     let n ← decodeStmts new
     let run := runPairModel g o n
-    some ((pairCorr g run obs).and (pairProps g o n obs))
+    some (((pairCorr g run obs).and (pairCaseCorr g o n obs)).and (pairProps g o n obs))
   | _ => none
 
 end Sqlize.Driver
